@@ -266,12 +266,7 @@ class SqliteStorage(AbstractStorage):
         # and SQLITE_LIMIT_VARIABLE_NUMBER under Windows.
         # See: https://github.com/coleifer/peewee/issues/948
 
-        # First, upsert events with id's set
         events_upsert = [e for e in events if e.id is not None]
-        for e in events_upsert:
-            self.replace(bucket_id, e.id, e)
-
-        # Then insert events without id's set
         events_insert = [e for e in events if e.id is None]
         event_rows = []
         for event in events_insert:
@@ -283,10 +278,16 @@ class SqliteStorage(AbstractStorage):
             + "VALUES ((SELECT rowid FROM buckets WHERE id = ?), ?, ?, ?)"
         )
         try:
+            # First, upsert events with id's set
+            for e in events_upsert:
+                self._replace(bucket_id, e.id, e)
+            # Then insert events without id's set
             self.conn.executemany(query, event_rows)
         finally:
-            # Rows inserted before a failing row stay in the open transaction, keep them counted
-            self.conditional_commit(len(event_rows))
+            # One commit decision for the whole batch: a batch that arrives after the age limit is
+            # flushed as a whole, not only up to its first statement.
+            # Statements run before a failing one stay in the open transaction, keep them counted
+            self.conditional_commit(len(events_upsert) + len(event_rows))
 
     def replace_last(self, bucket_id, event):
         starttime, endtime = _event_to_us(event)
@@ -310,7 +311,8 @@ class SqliteStorage(AbstractStorage):
         self.conditional_commit(1)
         return cursor.rowcount == 1
 
-    def replace(self, bucket_id, event_id, event) -> bool:
+    def _replace(self, bucket_id, event_id, event) -> None:
+        """The UPDATE of replace(), without the lazy-commit bookkeeping"""
         starttime, endtime = _event_to_us(event)
         datastr = json.dumps(event.data)
         query = """UPDATE events
@@ -319,6 +321,9 @@ class SqliteStorage(AbstractStorage):
                          datastr = ?
                      WHERE id = ? AND bucketrow = (SELECT rowid FROM buckets WHERE id = ?)"""
         self.conn.execute(query, [starttime, endtime, datastr, event_id, bucket_id])
+
+    def replace(self, bucket_id, event_id, event) -> bool:
+        self._replace(bucket_id, event_id, event)
         self.conditional_commit(1)
         return True
 
